@@ -140,7 +140,7 @@ theorem C09_incr_addEdge (s s' : St) (e : Edge) (attrs : List (Key × Val)) (rec
     (∃ er ∈ s'.edges, er.e = e) ∧
     (∀ er ∈ s'.edges, er.e = e → alook k er.attrs = some (s'.iouOf e)) ∧
     (∀ er ∈ s'.edges, er.e ≠ e → er ∈ s.edges ∧ s'.iouOf er.e = s.iouOf er.e) := by
-  obtain ⟨-, -, -, rfl⟩ := pAddEdge_ok h
+  obtain ⟨-, -, -, rfl⟩ := pAddEdge_ok_sg h
   have hk1 : (s.addEdgeRaw e attrs).iouKey = some k := by rw [addEdgeRaw_iouKey, hk]
   have ha1 : (s.addEdgeRaw e attrs).iouActive = true := by rw [addEdgeRaw_iouActive, ha]
   have hs1 : (s.addEdgeRaw e attrs).seg.isSome = true := by rw [addEdgeRaw_seg, hs]
@@ -156,7 +156,7 @@ theorem C09_incr_addEdge (s s' : St) (e : Edge) (attrs : List (Key × Val)) (rec
   · intro er her hne
     refine ⟨addEdgeRaw_ne (mem_iouUpdateEdge_ne her hne) hne, ?_⟩
     rw [iouOf_iouUpdateEdge]
-    exact iouOf_congr (addEdgeRaw_seg ..) (addEdgeRaw_nodes ..) _
+    exact iouOf_congr_sg (addEdgeRaw_seg ..) (addEdgeRaw_nodes ..) _
 
 example : ∃ s' r, exC09.pAddEdge (2, 3) [] = .ok (s', r) ∧
     s'.edges.getLast? = some { e := (2, 3), attrs := [(7, Val.iou 2 3)] } :=
@@ -169,7 +169,7 @@ theorem C09_incr_updSeg (s s' : St) (n : Node) (px : List Pix) (added : Bool) (r
     (hk : s.iouKey = some k) (ha : s.iouActive = true)
     (h : s.pUpdSeg n px added = .ok (s', rec)) :
     ∀ er ∈ s'.edges, (er.e.1 = n ∨ er.e.2 = n) → alook k er.attrs = some (s'.iouOf er.e) := by
-  obtain ⟨g, -, -, -, rfl⟩ := pUpdSeg_ok h
+  obtain ⟨g, -, -, -, rfl⟩ := pUpdSeg_ok_sg h
   intro er her hinc
   generalize hs1 : (s.withSeg (g.setPixels px (if added then n else 0))).rpUpdate n = s1 at her ⊢
   have hk1 : s1.iouKey = some k := by rw [← hs1, rpUpdate_iouKey]; exact hk
